@@ -249,7 +249,7 @@ func TestGen(t *testing.T) {
 		}
 	}
 	saved := features.EnableXDSIdentityCheck
-	for i := 0; i < vlib.Scale(700, 12000); i++ {
+	for i := 0; i < vlib.Scale(700, 6000); i++ {
 		id++
 		r := rI.Sub()
 		if !c.Wanted(id) {
@@ -319,7 +319,7 @@ func TestGen(t *testing.T) {
 
 	// ---- parse
 	rP := root.Sub()
-	for i := 0; i < vlib.Scale(700, 12000); i++ {
+	for i := 0; i < vlib.Scale(700, 6000); i++ {
 		id++
 		r := rP.Sub()
 		if !c.Wanted(id) {
@@ -355,7 +355,7 @@ func TestGen(t *testing.T) {
 
 	// ---- filter
 	rF := root.Sub()
-	for i := 0; i < vlib.Scale(300, 9000); i++ {
+	for i := 0; i < vlib.Scale(300, 4000); i++ {
 		id++
 		r := rF.Sub()
 		if !c.Wanted(id) {
@@ -539,7 +539,7 @@ func TestGen(t *testing.T) {
 	}
 
 	rS := root.Sub()
-	for i := 0; i < vlib.Scale(520, 12000); i++ {
+	for i := 0; i < vlib.Scale(520, 7000); i++ {
 		id++
 		r := rS.Sub()
 		if !c.Wanted(id) {
@@ -655,7 +655,7 @@ func TestGen(t *testing.T) {
 	grantsTerm := func(gs []Grant) string {
 		return vlib.ListOf(gs, func(g Grant) string { return vlib.Pair(S(g.Ns), S(g.Sa)) })
 	}
-	for i := 0; i < vlib.Scale(120, 2000); i++ {
+	for i := 0; i < vlib.Scale(120, 1000); i++ {
 		id++
 		r := rK.Sub()
 		if !c.Wanted(id) {
